@@ -301,12 +301,18 @@ type IntB struct {
 	P2  *zoo.Inner
 	End int32
 }
+
+// IntD / IntDP: sub-slices of one array (by-value elements / pointer elements; the two list types share a
+// wire name and are therefore kept in separate values)
 type IntD struct {
 	E0  []zoo.Inner
 	L   []zoo.Inner
 	E1  []zoo.Inner
 	L2  []zoo.Inner
 	E2  []zoo.Inner
+	End int32
+}
+type IntDP struct {
 	PE0 []*zoo.Inner
 	PL  []*zoo.Inner
 	PE1 []*zoo.Inner
@@ -684,23 +690,42 @@ func init() {
 					c.Res.States++
 					l := []zoo.Inner{{A: 1, S: "x"}, {A: 2, S: "y"}}
 					pl := []*zoo.Inner{{A: 3}, {A: 4}}
-					v := &IntD{End: 3}
+					v, vp := &IntD{End: 3}, &IntDP{End: 3}
 					if mask&1 != 0 {
-						v.E0, v.PE0 = l[:0], pl[:0]
+						v.E0, vp.PE0 = l[:0], pl[:0]
 					}
 					if mask&2 != 0 {
-						v.L, v.PL = l, pl
+						v.L, vp.PL = l, pl
 					}
 					if mask&4 != 0 {
-						v.E1, v.PE1 = l[:0], pl[:0]
+						v.E1, vp.PE1 = l[:0], pl[:0]
 					}
 					if mask&8 != 0 {
-						v.L2, v.PL2 = l, pl
+						v.L2, vp.PL2 = l, pl
 					}
 					if mask&16 != 0 {
-						v.E2, v.PE2 = l[:0:0], pl[1:1]
+						v.E2, vp.PE2 = l[:0:0], pl[1:1]
 					}
-					c.Outcome(graphCheck(c, v, fmt.Sprintf("IntD with fields %05b set (empty sub-slices s[:0] before / between / after the slice they are cut from)", mask), "interior"))
+					desc := fmt.Sprintf("with fields %05b set (empty sub-slices s[:0] before / between / after the slice they are cut from)", mask)
+					c.Outcome(graphCheck(c, v, "IntD "+desc, "interior"))
+					c.Outcome(graphCheck(c, vp, "IntDP "+desc, "interior"))
+				}
+				// sub-slices of one array with the same start and different lengths, in every order of three fields
+				for code := 0; code < 27; code++ {
+					if !c.Begin() {
+						continue
+					}
+					c.NontrivialN(1)
+					c.Res.States++
+					l := []zoo.Inner{{A: 1, S: "x"}, {A: 2, S: "y"}, {A: 3, S: "z"}}
+					pl := []*zoo.Inner{{A: 4}, {A: 5}, {A: 6}}
+					v, vp := &IntD{End: 3}, &IntDP{End: 3}
+					v.L, vp.PL = l[:1+code%3], pl[:1+code%3]
+					v.L2, vp.PL2 = l[:1+code/3%3], pl[:1+code/3%3]
+					v.E2, vp.PE2 = l[:1+code/9], pl[:1+code/9]
+					desc := fmt.Sprintf("with three prefixes of one array of lengths %d, %d, %d", 1+code%3, 1+code/3%3, 1+code/9)
+					c.Outcome(graphCheck(c, v, "IntD "+desc, "interior"))
+					c.Outcome(graphCheck(c, vp, "IntDP "+desc, "interior"))
 				}
 				for mask := 0; mask < 16; mask++ {
 					for form := 0; form < 3; form++ {
